@@ -93,8 +93,8 @@ let answer (line : string) : unit =
     print_endline (if not (neq_wf q) then "0w" else if neq_text q = unhex e then "1" else "0t")
   | ["D"; e; c; l; "/"; r] ->
     let q = { nlhs = toks_of l; nrhs = toks_of r } in
-    print_endline (if not (dq_ok q) then "0d" else if neq_text q <> unhex e then "0t" else if neq_code q <> unhex c then "0c"
-                   else "1:" ^ hex (denorm_text q))
+    print_endline (if not (dq_ok_canon q) then "0d" else if neq_text q <> unhex e then "0t" else if neq_code q <> unhex c then "0c"
+                   else "1:" ^ hex (denorm_canon q))
   | ["P"; h] -> print_endline (res_s (parse_model_nocheck (unhex h)))
   | ["P"] -> print_endline (res_s (parse_model_nocheck []))
   | ["Q"; h] -> print_endline (res_s (parse_equation_M (unhex h)))
